@@ -552,4 +552,90 @@ MUTANTS = [
          old="            .insert((), Timestamp(new_timestamp), &mut write_buffer)",
          new="            .insert((), Timestamp(prev), &mut write_buffer)",
          expect="C07.d/session/epoch-stored-with-session"),
+    # ------------------------------------------------------------------ C08
+    dict(id="C08.a-publish-in-fresh-batch", prop="C08", file=CG + "slow_path.rs",
+         old="""                (
+                    write_buffer,
+                    Some(fingerprint),""",
+         new="""                self.engine().submit_write_buffer(write_buffer);
+                (
+                    self.engine().new_write_transaction(),
+                    Some(fingerprint),""",
+         expect="C08.a/execute_query/value-shares-batch-with-dirty-marks"),
+    dict(id="C08.d-fjall-commit-twice", prop="C08", file=ST + "kv_database/fjall.rs",
+         old="        batch.commit().expect(\"write should not fail\");",
+         new="        if self.bytes_written > BATCH_SIZE * 2 { self.db.db.batch().durability(None).commit().expect(\"x\"); }\n        batch.commit().expect(\"write should not fail\");",
+         expect="C08.d/fjall/commit-is-one-store-write"),
+    dict(id="C08.e-atomic-flush-off", prop="C08", file=ST + "kv_database/rocksdb.rs",
+         old="    opts.set_atomic_flush(true);\n",
+         new="    opts.set_atomic_flush(false);\n",
+         expect="C08.e/rocksdb/wal-off-implies-atomic-flush"),
+    # ------------------------------------------------------------------ C11
+    dict(id="C11.a-fjall-get-uses-other-value-type", prop="C11", file=ST + "kv_database/fjall.rs",
+         old="        let mut buffer = Vec::new();\n        self.0.encode_wide_column_key::<W, C>(key, &mut buffer);\n\n        match keyspace.get(&buffer) {",
+         new="        let mut buffer = Vec::new();\n        self.0.encode_value(key, &mut buffer, true);\n\n        match keyspace.get(&buffer) {",
+         expect="C11.a/fjall/wide-column-key-agreement"),
+    dict(id="C11.a-fjall-delete_member-unprefixed", prop="C11", file=ST + "kv_database/fjall.rs",
+         old="""        let mut buffer = Vec::new();
+
+        self.db.encode_value_length_prefixed(key, &mut buffer);
+        self.db.encode_value(value, &mut buffer, false);
+
+        self.batch.remove(&keyspace, &buffer);""",
+         new="""        let mut buffer = Vec::new();
+
+        self.db.encode_value(key, &mut buffer, false);
+        self.db.encode_value(value, &mut buffer, false);
+
+        self.batch.remove(&keyspace, &buffer);""",
+         expect="C11.a/fjall/member-key-agreement"),
+    dict(id="C11.a-fjall-scan-offset", prop="C11", file=ST + "kv_database/fjall.rs",
+         old="            &key_bytes[8 + length..],",
+         new="            &key_bytes[length..],",
+         expect="C11.a/fjall/scan-prefix-and-element-offset"),
+    dict(id="C11.a-suffix-encoded-as-prefix", prop="C11", file=ST + "kv_database/fjall.rs",
+         old="        if W::discriminant_encoding() == DiscriminantEncoding::Suffixed {\n            self.encode_value(&C::discriminant(), buffer, false);",
+         new="        if W::discriminant_encoding() != DiscriminantEncoding::Prefixed && buffer.len() > 64 {\n            self.encode_value(&C::discriminant(), buffer, false);",
+         expect="C11.a/fjall/wide-column-key-layout"),
+    dict(id="C11.b-duplicate-discriminant", prop="C11", file=CG + "database.rs",
+         old="implements_wide_column_value!(NodeInfo, QueryNodeDiscriminant::NodeInfo);",
+         new="implements_wide_column_value!(NodeInfo, QueryNodeDiscriminant::QueryKind);",
+         expect="C11.b/discriminants-pairwise-distinct"),
+    dict(id="C11.c-length-prefix-off-by-8", prop="C11", file=ST + "kv_database/fjall.rs",
+         old="        let value_len = (end_len - start_len - 8) as u64;\n\n        // write the length prefix\n        buffer[start_len..start_len + 8]\n            .copy_from_slice(&value_len.to_le_bytes());\n    }\n\n    fn encode_wide_column_key",
+         new="        let value_len = (end_len - start_len) as u64;\n\n        // write the length prefix\n        buffer[start_len..start_len + 8]\n            .copy_from_slice(&value_len.to_le_bytes());\n    }\n\n    fn encode_wide_column_key",
+         expect="C11.c/fjall/length-prefix-backpatch"),
+    dict(id="C11.a-rocksdb-scan-no-upper-bound", prop="C11", file=ST + "kv_database/rocksdb.rs",
+         old="                read_opts.set_iterate_upper_bound(prefix_upper_bound);",
+         new="                if prefix_upper_bound.len() < 4 { read_opts.set_iterate_upper_bound(prefix_upper_bound); }",
+         expect="C11.a/rocksdb/scan-prefix-and-element-offset"),
+    # ------------------------------------------------------------------ C12
+    dict(id="C12.a-D4-bitvec-raw-bytes", prop="C12", file="crates/serialize/src/decode.rs",
+         old="        let number_of_elements = len.div_ceil(bits_of::<T>());\n        let mut raw = Vec::with_capacity(number_of_elements);\n        for _ in 0..number_of_elements {\n            raw.push(T::decode(decoder, plugin, session)?);\n        }",
+         new="        let number_of_elements = len.div_ceil(bits_of::<T>());\n        let mut raw = Vec::with_capacity(number_of_elements);\n        let _ = (plugin, session);\n        let bytes = decoder.read_raw_bytes(number_of_elements * std::mem::size_of::<T>())?;\n        for _ in 0..number_of_elements {\n            raw.push(T::ZERO);\n        }\n        let _ = bytes;",
+         expect="C12.a/main/shape/BitVec<T, O>"),
+    dict(id="C12.a-option-tag-swapped", prop="C12", file="crates/serialize/src/decode.rs",
+         old="        let is_some = decoder.read_bool()?;\n        if is_some {",
+         new="        let is_some = decoder.read_bool()?;\n        if !is_some {",
+         expect="C12.a/main/shape/Option<T>"),
+    dict(id="C12.a-hashmap-value-before-key", prop="C12", file="crates/serialize/src/decode.rs",
+         old="            let key = K::decode(decoder, plugin, session)?;\n            let value = V::decode(decoder, plugin, session)?;\n            map.insert(key, value);\n        }\n        Ok(map)\n    }\n}\n\nimpl<T, S> Decode for HashSet<T, S>",
+         new="            let value = V::decode(decoder, plugin, session)?;\n            let key = K::decode(decoder, plugin, session)?;\n            map.insert(key, value);\n        }\n        Ok(map)\n    }\n}\n\nimpl<T, S> Decode for HashSet<T, S>",
+         expect="C12.a/main/shape/HashMap<K, V, S>"),
+    dict(id="C12.a-bound-tag", prop="C12", file="crates/serialize/src/decode.rs",
+         old="            1 => Ok(Self::Included(T::decode(decoder, plugin, session)?)),\n            2 => Ok(Self::Excluded(T::decode(decoder, plugin, session)?)),",
+         new="            1 => Ok(Self::Included(T::decode(decoder, plugin, session)?)),\n            3 => Ok(Self::Excluded(T::decode(decoder, plugin, session)?)),",
+         expect="C12.a/main/shape/Bound<T>"),
+    dict(id="C12.b-vecdeque-no-length", prop="C12", file="crates/serialize/src/encode.rs",
+         old="impl<T: Encode> Encode for VecDeque<T> {\n    fn encode<E: Encoder + ?Sized>(\n        &self,\n        encoder: &mut E,\n        plugin: &Plugin,\n        session: &mut Session,\n    ) -> io::Result<()> {\n        encoder.emit_usize(self.len())?;",
+         new="impl<T: Encode> Encode for VecDeque<T> {\n    fn encode<E: Encoder + ?Sized>(\n        &self,\n        encoder: &mut E,\n        plugin: &Plugin,\n        session: &mut Session,\n    ) -> io::Result<()> {",
+         expect="C12."),
+    dict(id="C12.c-i32-decoded-at-64", prop="C12", file="crates/serialize/src/postcard.rs",
+         old="        Ok(zigzag_decode_i32(self.read_varint_u32()?))",
+         new="        Ok(zigzag_decode_i64(self.read_varint_u64()?) as i32)",
+         expect="C12.c/primitive/i32"),
+    dict(id="C12.c-char-fixed-width", prop="C12", file="crates/serialize/src/postcard.rs",
+         old="        let code = self.read_u32()?;\n        char::from_u32(code)",
+         new="        let mut buf = [0u8; 4];\n        self.reader.read_exact(&mut buf)?;\n        let code = u32::from_le_bytes(buf);\n        char::from_u32(code)",
+         expect="C12.c/primitive/char"),
 ]
